@@ -1,9 +1,14 @@
 import PP.Extracted
 /-
-C14 tie: the write set of the functions reachable from Aggregate, ToHTML and
-the console writers (`Extracted.stackWriteSet` / `internalWriteSet` list every
-write that goes through an index, selector or dereference, with the origin of
-its root variable).  Pinned is the part that matters: the writes whose root is
+C14 tie: the write set of the functions reachable — by calls or references, in
+the call graph the extractor computes from the source (`stackRenderReachable`)
+— from Aggregate, ToHTML, the String methods the template calls and the console
+writers.  `Extracted.stackWriteSet` / `internalWriteSet` list every write whose
+target is reached through an indirection (slice or map element, pointer
+dereference, explicit or implied), with the origin of its root variable; a
+local initialised from part of a parameter inherits the parameter's origin, so
+`out := a.Values; out[i] = x` counts as a write through the receiver, while
+assigning a field of a struct *copy* does not.  Pinned is the part that matters: the writes whose root is
 NOT a value created inside the same call (`make`, a composite literal, a local
 array, a call result).  There are exactly two groups: the per-bucket counters
 owned by Aggregate's own map (`c.ids`, `c.first`, reached through a range
